@@ -10,5 +10,7 @@ CONSTANTS
  MaxSteps = 8
  MaxNow = 100000000
  MaxGen = 100000000
+ GenOrderedCompare = FALSE
+ Observers = {}
 INVARIANTS TypeOK ObserveExact NeverDropUncovered DropRemoves KeepKeeps FreshRestart InterferenceIsCrossKind UncoveredUntracked
 CHECK_DEADLOCK FALSE
